@@ -335,6 +335,10 @@ def monitor_seq(case):
                     cls = classify(n_stop, 1 if (nm > 0 and sguard) else 0, nm, specs, m, "stop", sguard, None, sguard, panic_seen)
                     out.append({"op": i, "file": f, "what": "%d stop call(s) for %s at minute %d; matching stop schedules: %d, running=%s "
                                 "suspended=%s" % (n_stop, f, m, nm, running, sus), "cls": cls})
+                if n_stop > 1 or n_restart > 1:
+                    out.append({"op": i, "file": f, "what": "%d stop and %d restart call(s) for %s at minute %d: an operation is "
+                                "triggered at most once per DAG and minute" % (n_stop, n_restart, f, m),
+                                "cls": {"class": "double-call", "cause": "unexplained"}})
                 # --- restart: at each matching minute
                 nm, specs = kinds["restart"]
                 rguard = up and not sus
